@@ -751,6 +751,49 @@ func (w *world) genScenario(id int, thorough bool) {
 		}
 		s.compare(uint64(q))
 	}
+	// the same generator object used for a second history (Generate starts over; its random source has moved
+	// on, so the chain differs): whatever it remembers from the first one must not leak into the second
+	if r.Intn(2) == 0 {
+		w.out.Line("scenario id=%d kind=gen", id+50000)
+		s2 := w.newScenario(t, m)
+		s2.cc = s.cc
+		s2.setHead(t.head, time.Hour)
+		n2 := 6 + r.Intn(n-5) // the tree is only long enough for n instances
+		var chain2 []*certs.FinalityCertificate
+		res2 := guardErr(func() error {
+			var err error
+			chain2, err = s2.cc.Generate(s2.ctx, uint64(n2))
+			if err != nil && os.Getenv("VERIF_INPUTS_DEBUG") != "" {
+				fmt.Fprintln(os.Stderr, "GEN2ERR:", err)
+			}
+			return err
+		})
+		w.out.Line("ccgen n=%d => %s", n2, res2)
+		if res2 != "ok" {
+			return
+		}
+		for _, c := range chain2 {
+			pres := guardErr(func() error { return s2.store.Put(s2.ctx, c) })
+			hb, bb := t.byKey[string(c.ECChain.Head().Key)], t.byKey[string(c.ECChain.Base().Key)]
+			hid, bid := -1, -1
+			if hb != nil {
+				hid = hb.id
+			}
+			if bb != nil {
+				bid = bb.id
+			}
+			w.out.Line("put inst=%d base=%d head=%d supp=%d => %s", c.GPBFTInstance, bid, hid, t.tableID(c.SupplementalData.PowerTable), pres)
+			if pres != "ok" {
+				return
+			}
+		}
+		for q := first - 1; q <= first+int64(n2)+2; q++ {
+			if q < 0 {
+				continue
+			}
+			s2.compare(uint64(q))
+		}
+	}
 }
 
 func main() {
